@@ -213,6 +213,20 @@ pub fn run(cfg: &Cfg) -> Outcome {
     for a in accs {
         acc.merge(a);
     }
+    // the Python str/repr clause: records written by py/c12_driver.py (section C) when the check
+    // driver provides them
+    if let Ok(path) = std::env::var("OHMC_C12_OBS") {
+        if let Ok(text) = std::fs::read_to_string(&path) {
+            for line in text.lines() {
+                if let Ok(rec) = serde_json::from_str::<Value>(line) {
+                    if rec.get("part").and_then(|v| v.as_str()) == Some("C") {
+                        acc.add("python_str_repr_records", 1);
+                        crate::props::c12::check_record(&rec, &mut acc);
+                    }
+                }
+            }
+        }
+    }
     for i in [0usize, fam.len() / 3, fam.len() / 2, fam.len() - 1] {
         let t = match &fam[i] {
             Src::Ast(a) => canon(a).unwrap_or_default(),
